@@ -164,6 +164,31 @@ func c05Verify1(m *stun.Message, raw []byte, corrupted bool) (outcome, key, deta
 			return "", "clone-verdict-differs", fmt.Sprintf("%s: Fingerprint.Check on the clone = %v, on the message %v (RFC verdict %v): %x", how, cerr2, err, want, clip(raw))
 		}
 	}
+	// a ForEach whose callback fails (at every attribute type the message has, at the last visit) leaves the message as
+	// it was: the check gives the same verdict afterwards
+	seen := map[stun.AttrType]bool{}
+	for _, a := range append(stun.Attributes(nil), m.Attributes...) {
+		if seen[a.Type] {
+			continue
+		}
+		seen[a.Type] = true
+		n, visits := 0, 0
+		for _, b := range m.Attributes {
+			if b.Type == a.Type {
+				n++
+			}
+		}
+		_ = m.ForEach(a.Type, func(*stun.Message) error {
+			visits++
+			if visits == n {
+				return errC02Stop
+			}
+			return nil
+		})
+		if err3 := stun.Fingerprint.Check(m); (err3 == nil) != want {
+			return "", "verdict-changes-after-failing-foreach", fmt.Sprintf("Fingerprint.Check = %v before and %v after a ForEach(%#04x) whose callback returned an error at its last visit (RFC verdict %v): %x", err, err3, uint16(a.Type), want, clip(raw))
+		}
+	}
 	switch {
 	case err == nil:
 		return "pass", "", ""
@@ -417,6 +442,37 @@ func init() {
 					}
 				}
 			}
+			// a fingerprinted message sent through a client arrives as it was built (the fingerprint covers the header: a
+			// client that touches type, length or transaction id after the fact invalidates it), whatever its transaction id
+			if c.Shard == 0 {
+				for ti, tidv := range [][12]byte{{}, {0xFF, 0xFF, 0xFF, 0xFF, 0xFF, 0xFF, 0xFF, 0xFF, 0xFF, 0xFF, 0xFF, 0xFF}, tid} {
+					for way := 0; way < 3; way++ {
+						for _, withMI := range []bool{false, true} {
+							c.Eval(1)
+							b := new(stun.Message)
+							b.TransactionID = tidv
+							b.Type = stun.BindingRequest
+							b.WriteHeader()
+							b.Add(stun.AttrSoftware, []byte("through a client"))
+							if withMI {
+								_ = stun.NewShortTermIntegrity("secret").AddTo(b)
+							}
+							_ = stun.Fingerprint.AddTo(b)
+							why := throughClient(b, way)
+							if why == "" {
+								if err := stun.Fingerprint.Check(b); err != nil {
+									why = "Fingerprint.Check on the message after sending it: " + err.Error()
+								}
+							}
+							if why != "" {
+								c.Violation("fingerprinted-message-through-client", fmt.Sprintf("transaction id #%d (0 all zero, 1 all ones, 2 ordinary), MESSAGE-INTEGRITY %v: %s", ti, withMI, why), c05Case{Orig: "client", Hex: fmt.Sprint(ti*8 + way*2 + map[bool]int{false: 0, true: 1}[withMI])})
+								bad = true
+							}
+							c.Outcome("through-client")
+						}
+					}
+				}
+			}
 			// the largest messages the length field allows
 			if c.Shard == 1%c.NShards {
 				for _, sz := range []int{65000, 65500, 65504, 65508, 65512, 65516, 65520} {
@@ -602,6 +658,29 @@ func init() {
 				c.Fail("%v", err)
 			}
 			raw, _ := hex.DecodeString(k.Hex)
+			if k.Orig == "client" {
+				var v int
+				fmt.Sscan(k.Hex, &v)
+				b := new(stun.Message)
+				b.TransactionID = [][12]byte{{}, {0xFF, 0xFF, 0xFF, 0xFF, 0xFF, 0xFF, 0xFF, 0xFF, 0xFF, 0xFF, 0xFF, 0xFF}, {0xca, 0xfe, 1, 2, 3, 4, 5, 6, 7, 8, 9, 10}}[v/8]
+				b.Type = stun.BindingRequest
+				b.WriteHeader()
+				b.Add(stun.AttrSoftware, []byte("through a client"))
+				if v%2 == 1 {
+					_ = stun.NewShortTermIntegrity("secret").AddTo(b)
+				}
+				_ = stun.Fingerprint.AddTo(b)
+				why := throughClient(b, v%8/2)
+				if why == "" {
+					if err := stun.Fingerprint.Check(b); err != nil {
+						why = err.Error()
+					}
+				}
+				if why != "" {
+					c.Violation("fingerprinted-message-through-client", why, k)
+				}
+				return
+			}
 			if k.Orig == "layout" {
 				var v int
 				fmt.Sscan(k.Hex, &v)
